@@ -26,6 +26,7 @@ type hpCall struct {
 	needs  string         // implicit parameter the template mentions ("now")
 	fixed  map[int]string // argument position (1-based) → the source text it must have, else the call is refused
 	use    []int          // argument positions translated, in the order $1, $2, …  (nil: all, unmodelled ones dropped)
+	effect string         // statement executed before the result is bound (same $-arguments): a write to the connection (`out`)
 }
 
 type hpDict struct {
@@ -49,13 +50,15 @@ type hpDict struct {
 	implicit   []string             // binders every function takes
 	assume     []string
 	fresh      map[string][3]string // Go composite `&T{}` → (kind, zero record, record Lean type)
+	resultKind map[string][]string  // function (Lean name) → result kinds, where the Go result type alone does not decide (error as a VALUE)
+	nilTests   map[string]string    // non-pointer kind → what `v != nil` means ($x = the value)
 }
 
 var dhcpDict = &hpDict{
 	pkg:       "github.com/irai/packet/handlers/dhcp4_spoofer",
 	namespace: "PV.Gen.DhcpSrv",
-	imports:   "import PacketVerif.Model.DhcpSrvGo\n",
-	open:      "open PV PV.Model.Dhcp4Srv PV.Model.DhcpSrvGo\n",
+	imports:   "import PacketVerif.Model.DhcpSrvGo\nimport PacketVerif.Model.DhcpDispatchGo\n",
+	open:      "open PV PV.Model.Dhcp4Srv PV.Model.DhcpSrvGo PV.Model.DhcpDispatchGo\n",
 	prefix:    "dhcpSrv",
 	heapType:  "State",
 	targets: [][2]string{
@@ -89,11 +92,17 @@ var dhcpDict = &hpDict{
 		"error":                               "err",
 		"github.com/irai/packet.DHCP4":        "reply", // as a value built by the handlers; the parameter `p` is "msg"
 		"github.com/irai/packet.DHCP4Options": "opts",  // as a value built by the handlers; the parameter `options` is "msgopts"
+		// ProcessPacket (bU): the frame the session hands over, read through the record FrameV of Model/DhcpDispatchGo.lean
+		"github.com/irai/packet.Frame":            "frame",
+		"github.com/irai/packet.PayloadID":        "int",
+		"github.com/irai/packet.DHCP4MessageType": "int",
+		"uint16":                                  "int",
 	},
 	unmodTypes: map[string]bool{"string": true, "github.com/irai/packet.NameEntry": true, "untyped string": true,
-		"*github.com/irai/packet/fastlog.Line": true},
+		"*github.com/irai/packet/fastlog.Line": true, "github.com/irai/packet.Addr": true},
 	leanType: map[string]string{"lease": "Cid", "sub": "SubId", "host": "Option MAC", "lstate": "LState", "mode": "Mode", "bool": "Bool",
-		"int": "Nat", "ip": "AddrV", "bytes": "Bytes", "time": "Nat", "dur": "Nat", "err": "Bool", "reply": "Option Reply", "opts": "OptsV"},
+		"int": "Nat", "ip": "AddrV", "bytes": "Bytes", "time": "Nat", "dur": "Nat", "err": "Bool", "reply": "Option Reply", "opts": "OptsV",
+		"frame": "FrameV", "perr": "Option Err"},
 	zero: map[string]string{"bool": "false", "int": "(0 : Nat)", "ip": "AddrV.invalid", "bytes": "([] : Bytes)", "time": "(0 : Nat)", "dur": "(0 : Nat)",
 		"err": "false", "reply": "(none : Option Reply)", "lstate": "LState.free"},
 	ptrKinds: map[string]bool{"lease": true, "host": true},
@@ -127,6 +136,13 @@ var dhcpDict = &hpDict{
 		"session.NICInfo.HostAddr4.IP":   {kind: "ip", get: "(AddrV.v4 cfg.host)"},
 		"session.NICInfo.RouterAddr4.IP": {kind: "ip", get: "(AddrV.v4 cfg.router)"},
 		"host.MACEntry.MAC":              {kind: "bytes", get: "$x"},
+		// ProcessPacket: what it reads of the frame
+		"frame.PayloadID":    {kind: "int", get: "$x.pid"},
+		"frame.DstAddr.Port": {kind: "int", get: "$x.dstPort"},
+		"frame.SrcAddr.IP":   {kind: "ip", get: "$x.srcIP"},
+		"frame.Host":         {kind: "host", get: "$x.host"},
+		"frame.SrcAddr.MAC":  {},
+		"session.Conn":       {},
 	},
 	calls: map[string]hpCall{
 		"session.IsCaptured":       {kind: "bool", lean: "(isCaptured $s $1)"},
@@ -139,6 +155,12 @@ var dhcpDict = &hpDict{
 		"handler.saveConfig":       {ignore: "lease file"},
 		"handler.Lock":             {ignore: "lock"},
 		"handler.Unlock":           {ignore: "lock"},
+		// ProcessPacket: the payload view and what is computed from it by functions regenerated elsewhere (F10 IsValid, F14 ParseOptions)
+		"frame.Payload":                {kind: "msg", lean: "$x.m"},
+		"msg.IsValid":                  {kind: "perr", lean: "frame.valid"},
+		"msg.ParseOptions":             {kind: "msgopts", lean: "$x"},
+		"handler.processClientPacket":  {kind: "perr", lean: "frame.clientRet", use: []int{}},
+		"sendDHCP4Packet":              {kind: "perr", lean: "frame.sendErr", use: []int{4}, effect: "let out := out ++ $1.toList"},
 		"bytes.Equal":              {kind: "bool", lean: "($1 == $2)"},
 		"packet.CopyBytes":         {kind: "bytes", lean: "$1"},
 		"packet.CopyMAC":           {kind: "bytes", lean: "$1"},
@@ -170,6 +192,7 @@ var dhcpDict = &hpDict{
 		"packet.IPv4zero": {"ip", "(AddrV.v4 0)"}, "packet.IPv4bcast": {"ip", "(AddrV.v4 4294967295)"},
 		"true": {"bool", "true"}, "false": {"bool", "false"},
 		"packet.DHCP4Offer": {"rtype", "RType.offer"}, "packet.DHCP4ACK": {"rtype", "RType.ack"},
+		"packet.ErrParseProtocol": {"perr", "(some Err.parseProtocol)"}, "packet.ErrParseFrame": {"perr", "(some Err.parseFrame)"},
 	},
 	index: map[string]hpCall{
 		"msgopts[packet.DHCP4OptionRequestedIPAddress]":   {kinds: []string{"bytes", "bool"}, leans: []string{"(optBytes m.reqOpt)", "m.reqOpt.isSome"}},
@@ -177,12 +200,15 @@ var dhcpDict = &hpDict{
 		"msgopts[packet.DHCP4OptionClientIdentifier]":     {kinds: []string{"bytes", "bool"}, leans: []string{"(optBytes m.cidOpt)", "m.cidOpt.isSome"}},
 		"msgopts[packet.DHCP4OptionHostName]":             {},
 		"msgopts[packet.DHCP4OptionParameterRequestList]": {},
+		"msgopts[packet.DHCP4OptionDHCPMessageType]":      {kinds: []string{"bytes", "bool"}, leans: []string{"(optBytes frame.mtOpt)", "frame.mtOpt.isSome"}},
 	},
 	params: map[string]string{
 		"github.com/irai/packet.DHCP4":        "m",
 		"github.com/irai/packet.DHCP4Options": "m",
 	},
 	fresh: map[string][3]string{"Lease": {"lease", "zeroLease", "Lease"}},
+	resultKind: map[string][]string{"Handler_ProcessPacket": {"perr"}},
+	nilTests:   map[string]string{"reply": "(replyPresent frame.cap $x)"},
 	assume: []string{
 		"a *Lease is the key of its entry in Handler.table: Lease.ClientID is assigned once, on the fresh object, before the pointer is stored under string(ClientID) (checked: no other assignment in the package)",
 		"netip.Addr values stored in Lease.Addr.IP / Lease.IPOffer / dhcpSubnet.nextIP are invalid or IPv4 (AddrV.toOpt / AddrV.toNat lose an IPv6 address); the configuration fields of a dhcpSubnet are IPv4",
@@ -191,5 +217,6 @@ var dhcpDict = &hpDict{
 		"time.Time is a number of seconds; Before is <, Add is + (no overflow)",
 		"EncodeDHCP4 / nakPacket / CopyOptions / OptionsLeaseTime are dictionary entries (encodeReply, nakReplyV, OptsV): their bodies are tied by C08/C12's encoder ties and the step correspondence, not here",
 		"a for-condition loop takes fuel; the tie theorems show which fuel suffices",
+		"ProcessPacket reads the frame through FrameV: IsValid / ParseOptions / the getters of the payload view are regenerated and tied elsewhere (F10, F14, F5) and enter as the fields valid / mtOpt / m; processClientPacket (client.go) and the connection's WriteTo are environment values (clientRet, sendErr); a reply value is nil iff the in-place encoder found no room (replyPresent = Dhcp4Frame.fits of cap(frame.Payload())); the destination address of the reply (broadcast flag / zero source) is an unmodelled local (tied by ComposeDhcpFrame and the dhcp.raw frames)",
 	},
 }
